@@ -13,6 +13,7 @@ run (they are generated values, not a searched space).
 from __future__ import annotations
 
 import os
+import re
 
 from .. import gen, kernel, realize, simfs
 from ..model import HistoryModel, ModelError, TreeModel, declared_encoding, encode_text, newline_of
@@ -68,7 +69,13 @@ def gen_store_text(rng, codec, allow_empty=True, nls=("lf", "crlf", "cr")):
         lines = ["".join(rng.choice(alpha) for _ in range(rng.choice([0, 1, 3, 6, 12]))) for _ in range(n)]
         # a body line must not look like a coding line itself
         lines = [l for l in lines if declared_encoding(l) is None]
-        if cookie:
+        if cookie and rng.random() < 0.06:
+            # a very long first line (generated banner, licence one-liner): the coding line is
+            # still line 2, however many characters or bytes precede it
+            plain = [c for c in alpha if c not in "\n\r\x0b\x0c\x1c\x1d\x1e\x85\u2028\u2029"] or ["x"]
+            body = "-" * 1100 if rng.random() < 0.5 else "".join(rng.choice(plain) for _ in range(700))
+            lines = ["# " + body, "# -*- coding: %s -*-" % cookie] + lines
+        elif cookie:
             lines = (rng.choice(COOKIE_FORMS) % cookie).split("\n") + lines
         text = "\n".join(lines)
         if lines and rng.random() < 0.7:
@@ -210,10 +217,27 @@ class ByteStoreEngine(Engine):
         init = []
         codecs = {}
         if swarm["program"]:
+            swarm["w"]["refactor"] = rng.choice([3, 6])
             init = gen.gen_program(rng)
             for e in init:
                 if not e.get("dir"):
                     codecs[e["p"]] = [None, "utf8", "utf-8"]
+            if rng.random() < 0.6:
+                # a module that so far is only its header (shebang, coding line, copyright): the
+                # "new module from a template" shape; things are moved into it by refactorings
+                codec = rng.choice([c for c in CODECS if c[0] and c[1] in ("latin", "cyr", "jp")])
+                word = "".join(rng.choice(ALPHABETS[codec[1]]) for _ in range(6)).replace("\n", "")
+                head = rng.choice(["#!/usr/bin/env python\n# -*- coding: %s -*-\n# (c) %s\n", "# -*- coding: %s -*-\n# %s\n#\n",
+                                   "# -*- coding: %s -*-\n# %s\nHDR = 1\n", "# -*- coding: %s -*-\n"])
+                text = head % ((codec[0], word) if head.count("%s") == 2 else (codec[0],))
+                try:
+                    ok = text.encode(codec[2]).decode(codec[2]) == text and "\r" not in text
+                except (UnicodeError, LookupError):
+                    ok = False
+                if ok:
+                    nl = rng.choice(["lf", "crlf"])
+                    init.append({"p": "hdr.py", "text": text, "nl": nl, "enc": codec[2]})
+                    codecs["hdr.py"] = list(codec)
         else:
             for i in range(swarm["files"]):
                 codec = rng.choice(CODECS)
@@ -279,6 +303,14 @@ class ByteStoreEngine(Engine):
                     edits.append([q, edit_of(rng, texts[q], tuple(codecs[q]))])
                 edits.append([p, edit_of(rng, edits[0][1], tuple(codecs[p]))])
                 steps.append({"op": "fail", "edits": edits, "k": rng.randint(1, len(edits)), "id": nid})
+            elif k == "refactor" and rng.random() < 0.35:
+                ident = rng.choice(["bar", "foo", "add", "run", "make", "K", "Box"])
+                src = [q for q in files if re.search(r"^(def|class) %s\b" % ident, texts.get(q, ""), re.M)]
+                dests = [q for q in files if q.endswith(".py") and not q.endswith("__init__.py")]
+                if "hdr.py" in dests and rng.random() < 0.7:
+                    dests = ["hdr.py"]
+                steps.append({"op": "refactor", "kind": "move_global", "path": src[0] if src else p, "ident": ident,
+                              "dest": rng.choice(dests) if dests else p, "id": nid})
             elif k == "refactor":
                 steps.append({"op": "refactor", "kind": "rename", "path": p, "ident": rng.choice(gen.PROGRAM_IDENTS),
                               "occ": rng.randrange(4), "new": rng.choice(gen.NEW_IDENTS) + str(nid), "id": nid, "docs": False})
@@ -530,6 +562,19 @@ class ByteStoreEngine(Engine):
                         W.project.do(changes)
                         model.do({"id": st["id"], "desc": "rf%d" % st["id"], "ops": ops})
                         out.stats["probe_refactoring_as_edit"] += 1
+                        if st["kind"] == "move_global":
+                            out.stats["probe_move_global_done"] += 1
+                        # a refactoring edits part of a file: the encoding the file declares (as
+                        # Python reads it from the bytes) is part of "everything else"
+                        now = W.snapshot()
+                        for o in ops:
+                            was, new_b = cur.files.get(o[1]), now.get(o[1])
+                            if isinstance(was, bytes) and isinstance(new_b, bytes):
+                                d0, d1 = declared_encoding(was.decode("latin-1")), declared_encoding(new_b.decode("latin-1"))
+                                if d0 is not None:
+                                    out.stats["probe_refactoring_edited_file_with_coding_line"] += 1
+                                if d0 != d1 and not bad:
+                                    bad = ("refactoring_changed_declared_encoding", {"path": o[1], "before": d0, "after": d1})
                 except Exception as e:
                     bad = ("step_raised", {"exc": repr(e)[:300]})
                     sig["exc"] = type(e).__name__
